@@ -968,6 +968,18 @@ class Engine:
                 cb = concrete_int(VInt(ib))
                 if cb is not None and cb >= 0:
                     return [(s, VInt(ia * (2 ** cb)))]
+                ca = concrete_int(VInt(ia))
+                if cb is None and ca is not None:
+                    # constant << symbolic count: c * 2**k via the spec function pow2 (ValueError for k < 0)
+                    from . import builtins_model as bm
+                    res = []
+                    for s2, negc in self.branch(s, ib < 0, node):
+                        if negc:
+                            res.append((s2, Raised(VExc('ValueError'))))
+                        else:
+                            bm.pow2_facts(s2, ib)
+                            res.append((s2, VInt(ca * bm.pow2(ib))))
+                    return res
             if isinstance(op, ast.RShift):
                 cb = concrete_int(VInt(ib))
                 if cb is not None and cb >= 0:
